@@ -151,6 +151,7 @@ def rule_set_unix(ctx, cfg, F):
         return
     f = sel
     tr = Tracer(f)
+    rule_set_noreblock(ctx, cfg, F)
     reads = [(b, t) for b, t in f.calls() if strip_generics(callee_name(t)) == "platform::unix::recv"]
     Rd.count("member_reads[%s]" % cfg, len(reads))
     event_next = {b for b, t in f.calls() if strip_generics(t.get("callee") or "") == "std::iter::Iterator::next"}
@@ -289,6 +290,38 @@ def rule_set_unix(ctx, cfg, F):
                                     Re.ok("error kind == Interrupted leads back to poll()", f.loc(b), cfg)
         if not found:
             Re.violate("%s:eintr-not-distinguished" % f.path, "the wait loop does not distinguish an interrupted poll (ErrorKind::Interrupted): a signal makes select() fail", f.path, f.loc(pb), config=cfg)
+
+
+
+def rule_set_noreblock(ctx, cfg, F):
+    R = ctx.rule("SET-NOREBLOCK", "select waits only while it has nothing to report: no path leads from a point where an event has been put into the result list (or a member "
+                 "has been read) back to the blocking wait, so a batch of results is never held back behind a second indefinite wait")
+    add, sel = set_fns(F, "unix")
+    if not sel:
+        R.violate("anchor-missing:select", "unix select not found", config=cfg)
+        return
+    f = sel
+    waits = [b for b, t in f.calls() if strip_generics(callee_name(t)) in ("mio::Poll::poll", "mio::poll::Poll::poll") or strip_generics(callee_name(t)).endswith("::Poll::poll")
+             or strip_generics(callee_name(t)) in ("libc::poll", "libc::epoll_wait", "libc::select")]
+    produced = [b for b, t in f.calls() if strip_generics(callee_name(t)) == "std::vec::Vec::push" and "OsIpcSelectionResult" in " ".join(t.get("generics", []))]
+    produced += [b for b, t in f.calls() if strip_generics(callee_name(t)) == "platform::unix::recv"]
+    R.count("wait_sites[%s]" % cfg, len(waits))
+    R.count("result_sites[%s]" % cfg, len(produced))
+    bad = None
+    for pb in produced:
+        t = f.term(pb)
+        if t["to"] < 0:
+            continue
+        reach = f.reachable(t["to"])
+        hit = [w for w in waits if w in reach]
+        if hit:
+            bad = (pb, hit[0])
+            break
+    if bad:
+        R.violate("%s:waits-again-with-results" % f.path, "after a result has been collected (%s) the function can reach the blocking wait again (%s): results already in hand are held back "
+                  "until some other event arrives" % (f.loc(bad[0]), f.loc(bad[1])), f.path, f.loc(bad[1]), config=cfg)
+    elif waits and produced:
+        R.ok("the blocking wait is not reachable from any of the %d result-producing sites" % len(produced), f.loc(waits[0]), cfg)
 
 
 def _pvariant(f, operand):
